@@ -24,6 +24,7 @@ func init() {
 		NotCovered: "the string form of each value (strconv formatting is chosen by gogen's `.string` member lookup), and that gogen's Concat call evaluates its operands in push order.",
 		Run:        runC05,
 		Controls: []Control{
+			{Name: "constant-part-folded", File: "cl/expr.go", Old: "\t\t\tt := cb.Get(-1).Type\n\t\t\tif t.Underlying() != types.Typ[types.String] {\n\t\t\t\tif _, err := cb.Member(\"string\", gogen.MemberFlagAutoProperty); err != nil {", New: "\t\t\tt := cb.Get(-1).Type\n\t\t\tif e := cb.Get(-1); e.CVal != nil && t.Underlying() != types.Typ[types.String] {\n\t\t\t\tcb.InternalStack().PopN(1)\n\t\t\t\tcb.Val(e.CVal.String(), v)\n\t\t\t} else if t.Underlying() != types.Typ[types.String] {\n\t\t\t\tif _, err := cb.Member(\"string\", gogen.MemberFlagAutoProperty); err != nil {", Expect: "string-conversion/in-place"},
 			{Name: "concat-arity-minus-one", File: e, Old: "\t\tcb.CallWith(n, 0, lit)", New: "\t\tcb.CallWith(n-1, 0, lit)", Expect: "concat-arity/compileStringLitEx"},
 			{Name: "expr-compiled-twice", File: e, Old: "\t\t\tcompileExpr(ctx, v, flags)\n\t\t\tt := cb.Get(-1).Type", New: "\t\t\tcompileExpr(ctx, v, flags)\n\t\t\tif flags != 0 {\n\t\t\t\tcb.ResetStmt()\n\t\t\t\tcompileExpr(ctx, v, 0)\n\t\t\t}\n\t\t\tt := cb.Get(-1).Type", Expect: "part-once/compileStringLitEx:expr"},
 			{Name: "dollar-strip-two", File: e, Old: "\t\t\t\tv = v[:len(v)-1]\n", New: "\t\t\t\tv = v[:len(v)-2]\n", Expect: "dollar-convention/compiler"},
@@ -220,6 +221,39 @@ func runC05(c *core.Check) {
 			return true
 		})
 		c.Decide(reported, "string-conversion", "compileStringLitEx", fd.Pos(), "a value with neither a string nor an error member is reported", "when an embedded value has neither a `string` nor an `error` member the failure is no longer reported: the literal compiles with an operand that is not a string")
+	}
+	// ---------- (3b) the embedded value is converted in place, through its `string` (or `error`) member only: the arm for an
+	// expression part never takes the operand off the stack or pushes a substitute (a folded constant text, say, whose
+	// spelling differs from what the member conversion prints: %.6g for floats)
+	{
+		bad := token.NoPos
+		what := ""
+		ast.Inspect(loop.Body, func(n ast.Node) bool {
+			cc, ok := n.(*ast.CaseClause)
+			if !ok || len(cc.List) != 1 || nows(core.ExprStr(cc.List[0])) != "ast.Expr" {
+				return true
+			}
+			ast.Inspect(&ast.BlockStmt{List: cc.Body}, func(m ast.Node) bool {
+				call, ok := m.(*ast.CallExpr)
+				if !ok {
+					return true
+				}
+				name := ""
+				switch f := call.Fun.(type) {
+				case *ast.SelectorExpr:
+					name = f.Sel.Name
+				case *ast.Ident:
+					name = f.Name
+				}
+				switch name {
+				case "PopN", "Pop", "Push", "Val", "Call", "CallWith", "BinaryOp", "UnaryOp", "basicLit", "Typ", "Convert":
+					bad, what = call.Pos(), name
+				}
+				return true
+			})
+			return false
+		})
+		c.Decide(!bad.IsValid(), "string-conversion", "in-place", fd.Pos(), "the operand is converted through its string/error member only", "the arm of compileStringLitEx for an embedded expression calls "+what+": the operand is taken off the stack, replaced or wrapped instead of being converted through its `string` member — the interpolated text is no longer what explicit concatenation with x.string yields")
 	}
 	// ---------- (4) `$$` convention and the splitter's offsets
 	{
